@@ -68,6 +68,46 @@ func (t Task) run() (string, int) {
 	case "count":
 		s := solver.New(solver.ParseSliceNb(oracle.CloneCNF(t.Clauses), t.N))
 		return fmt.Sprintf("count=%d", s.CountModels()), s.Stats.NbConflicts
+	case "enumerate-chan":
+		s := solver.New(solver.ParseSliceNb(oracle.CloneCNF(t.Clauses), t.N))
+		ch := make(chan []bool, 1)
+		done := make(chan struct{})
+		valid, got := true, 0
+		go func() {
+			for m := range ch {
+				got++
+				if oracle.ModelSatisfies(t.Clauses, m) >= 0 {
+					valid = false
+				}
+			}
+			close(done)
+		}()
+		n := s.Enumerate(ch, nil)
+		<-done
+		return fmt.Sprintf("enumerated=%d delivered=%d valid=%v", n, got, valid), s.Stats.NbConflicts
+	case "cp-solve":
+		pb := solver.ParseSliceNb(oracle.CloneCNF(t.Clauses), t.N)
+		pb.DetectAtMostOne()
+		s := solver.New(pb)
+		s.CuttingPlanes = true
+		st := s.Solve()
+		out := st.String()
+		if st == solver.Sat {
+			out += fmt.Sprintf(" model-valid=%v", oracle.ModelSatisfies(t.Clauses, s.Model()) < 0)
+		}
+		return out, s.Stats.NbConflicts
+	case "opb-optimal":
+		var cs []oracle.Constr
+		for _, cl := range t.Clauses {
+			cs = append(cs, oracle.Clause(cl...))
+		}
+		pb, err := solver.ParseOPB(strings.NewReader(texts.OPB(t.Cost, cs, texts.OPBLayout{})))
+		if err != nil {
+			return "error: " + err.Error(), 0
+		}
+		s := solver.New(pb)
+		res := s.Optimal(nil, nil)
+		return fmt.Sprintf("%v cost=%d", res.Status, res.Weight), s.Stats.NbConflicts
 	case "optimal-chan":
 		pb := solver.ParseSliceNb(oracle.CloneCNF(t.Clauses), t.N)
 		ls := make([]solver.Lit, len(t.Cost.Lits))
@@ -281,13 +321,24 @@ func raceError(when, rep string) error {
 }
 
 func genTask(t *rapid.T) Task {
-	kind := rapid.SampledFrom([]string{"solve", "solve", "cert-solve", "count", "optimal-chan", "wcnf", "maxsat-api", "unsat-subset", "mus-deletion", "mus-insertion", "mus-maxsat", "bf-solve", "bf-dimacs"}).Draw(t, "kind")
+	kind := rapid.SampledFrom([]string{"solve", "solve", "cert-solve", "count", "enumerate-chan", "cp-solve", "opb-optimal", "optimal-chan", "wcnf", "maxsat-api", "unsat-subset", "mus-deletion", "mus-insertion", "mus-maxsat", "bf-solve", "bf-dimacs"}).Draw(t, "kind")
 	tk := Task{Kind: kind}
 	switch kind {
 	case "solve", "cert-solve":
 		tk.N, tk.Clauses, _ = gen.FormulaHardSmall(t)
-	case "count":
+	case "count", "enumerate-chan":
 		tk.N, tk.Clauses = gen.SmallCNF(t, gen.CNFOpts{MinN: 6, MaxN: 10, MaxRatio: 2, MaxLen: 3})
+	case "cp-solve":
+		if rapid.Bool().Draw(t, "php") {
+			tk.N, tk.Clauses = gen.Pigeonhole(t, rapid.IntRange(3, 5).Draw(t, "holes"), gen.Chance(t, 1, 3, "drop"))
+		} else {
+			tk.N = gen.Uniform(t, 6, 12, "n")
+			tk.Clauses, _ = gen.CliqueRich(t, tk.N)
+		}
+	case "opb-optimal":
+		var cost oracle.Cost
+		tk.N, tk.Clauses, cost = gen.VertexCover(t, 8, 14)
+		tk.Cost = &cost
 	case "optimal-chan":
 		var cost oracle.Cost
 		tk.N, tk.Clauses, cost = gen.VertexCover(t, 8, 14)
@@ -329,7 +380,7 @@ func genCase(t *rapid.T) Case {
 
 func init() {
 	vf.Register(vf.Sub[Case]{Name: "concurrent-mix", Quick: 600, Thorough: 4000, Gen: genCase, Check: check, Floor: 0.3, Journal: true,
-		Rule: "k in 2..8 data-independent tasks drawn from: Solve / certified Solve on parity and pigeonhole formulas (tens of conflicts), CountModels, Optimal with result channel on weighted vertex cover, ParseWCNF+Optimal, maxsat.New+Solve, UnsatSubset, MUSDeletion, MUSInsertion, MUSMaxSat, bf.Solve, bf.Dimacs; GOMAXPROCS in {2,4,16}; every task's outcome (verdict, model validity, count, optimum, certificate validity, extracted subset) is first computed with the tasks run one after the other, then all tasks are started together and must return the same outcome; the binary is built with -race and the detector's report file is read after each phase: any report is a failure; non-trivial = >=2 tasks with >=1 conflict each. The schedule is not owned by the harness: each round is one sample of the interleavings"})
+		Rule: "k in 2..8 data-independent tasks drawn from: Solve / certified Solve on parity and pigeonhole formulas (tens of conflicts), CountModels, Enumerate with a model channel, DetectAtMostOne + cutting-planes Solve, ParseOPB + Optimal, Optimal with result channel (the consumer keeps and re-reads the models) on weighted vertex cover, ParseWCNF+Optimal, maxsat.New+Solve, UnsatSubset, MUSDeletion, MUSInsertion, MUSMaxSat, bf.Solve, bf.Dimacs; GOMAXPROCS in {2,4,16}; every task's outcome (verdict, model validity, count, optimum, certificate validity, extracted subset) is first computed with the tasks run one after the other, then all tasks are started together and must return the same outcome; the binary is built with -race and the detector's report file is read after each phase: any report is a failure; non-trivial = >=2 tasks with >=1 conflict each. The schedule is not owned by the harness: each round is one sample of the interleavings"})
 }
 
 func TestMain(m *testing.M)   { vf.Main(m, "C16") }
